@@ -27,7 +27,11 @@ META = {
                   "(fail closed); model and code are compared on sorted(), make_error_from_parse_error, ambiguous_name_error and on "
                   "observed (counter, cache, anonymous numbers) after sequences of compilations in fresh processes; accepted and "
                   "rejected modules are compiled under 8 hash seeds, twice per process, in two interleavings, with shuffled import "
-                  "directories and as front-end|back-end processes vs embossc, and compared byte for byte.",
+                  "directories and as front-end|back-end processes vs embossc, and compared byte for byte; the three command line drivers "
+                  "(embossc vs emboss_front_end writing the IR to a file, then emboss_codegen_cpp reading it) are also run on testdata, "
+                  "generated falsy-value modules (false/0 constants, constant-false comparisons, enum value 0, is_signed false, Flag "
+                  "fields, empty documentation and arrays), gen_expr modules, rejected modules and back-end rejections placed in the "
+                  "main and in imported files, comparing exit status, stderr text and header.",
     "level_note": "partial. Trusted: Coq kernel + vm_compute; harness/props/c17.py, harness/pipe_worker.py, harness/c17_scan.py (syntactic "
                   "type inference: a set that reaches an iteration through an untyped parameter is invisible to it; the hash-seed runs "
                   "are the net for those). Hash-seed effects at sites that are neither modelled nor exercised by the generated modules "
@@ -42,13 +46,14 @@ SEEDS_FIXED = [0, 1, 2, 3, 4]
 
 
 # ----------------------------------------------------------------------------
-def worker_run(ctx, name, jobs, seed, want, repeat=1):
+def worker_run(ctx, name, jobs, seed, want, repeat=1, mode=None):
     """Run harness.pipe_worker in a fresh interpreter with the given hash seed."""
     d = os.path.join(ctx.bdir, "jobs")
     os.makedirs(d, exist_ok=True)
     jp, op = os.path.join(d, name + ".job.json"), os.path.join(d, name + ".out.json")
     with open(jp, "w", encoding="utf-8") as f:
-        json.dump({"jobs": jobs, "want": want, "repeat": repeat, "shared": testdata_files()}, f)
+        json.dump({"jobs": jobs, "want": want, "repeat": repeat, "shared": testdata_files(), "mode": mode,
+                   "base": os.path.join(ctx.bdir, "drivers", name)}, f)
     if os.path.exists(op):
         os.remove(op)
     env = dict(os.environ)
@@ -76,7 +81,7 @@ def module_jobs(ctx, n_gen, n_rej):
         jobs.append({"id": "gen_expr:%d" % i, "files": {"m.emb": m.text()}, "main": "m.emb"})
     # modules with anonymous bits (the counter), in several sizes
     for i in range(max(3, n_gen // 3)):
-        jobs.append({"id": "anon:%d" % i, "files": {"m.emb": anon_module(r, "A%d" % i)}, "main": "m.emb"})
+        jobs.append({"id": "anon:%d" % i, "files": {"m.emb": anon_module(r, "An%d" % i)}, "main": "m.emb"})
     # minimised modules of past findings and other fixed rejected modules: corpus/C17/*.json
     for p in sorted(glob.glob(os.path.join(fw.VERIF, "corpus", "C17", "*.json"))):
         j = json.load(open(p, encoding="utf-8"))
@@ -119,6 +124,138 @@ def same_name_jobs():
     main4 = main1.replace("imp.Imp  a", "imp.Nope  a")          # rejected
     variants = [(main1, imp_a), (main2, imp_a), (main1, imp_b), (main3, imp_a), (main4, imp_a), (main3, imp_b), (main1, imp_a)]
     return [{"id": "same:%d" % i, "files": {"m.emb": m, "imp.emb": im}, "main": "m.emb"} for i, (m, im) in enumerate(variants)]
+
+
+def falsy_module(r, tag):
+    """A module that exercises IR fields with falsy-but-meaningful values: false/0 constants, constant-false
+    comparisons, enum value 0, is_signed false, Flag fields, empty documentation, empty arrays, `if false`."""
+    def on(p=0.6):
+        return r.random() < p
+    L = []
+    if on(0.4):
+        L.append("--")
+    if on(0.5):
+        L.append("-- ")
+    L.append('[$default byte_order: "%s"]' % r.choice(["LittleEndian", "BigEndian"]))
+    if on(0.4):
+        L.append('[(cpp) namespace: "%s"]' % r.choice(["f", "f::g", "::f::g"]))
+    if on(0.3):
+        L.append('[(cpp) $default enum_case: "%s"]' % r.choice(["kCamelCase", "SHOUTY_CASE", "SHOUTY_CASE, kCamelCase"]))
+    L.append("enum Ee:")
+    if on(0.5):
+        L.append("  [is_signed: %s]" % r.choice(["false", "true"]))
+    if on(0.3):
+        L.append("  [maximum_bits: %d]" % r.choice([8, 16, 64]))
+    L.append("  ZERO = 0")
+    if on(0.3):
+        L.append("    --")
+    L.append("  ONE = 1")
+    L.append("struct Bar%s(q: UInt:8, k: Ee):" % tag)
+    L.append("  0 [+1]  UInt  v")
+    if on():
+        L.append("  let qz = q == 0")
+    if on():
+        L.append("  let kz = k == Ee.ZERO")
+    L.append("struct Foo%s:" % tag)
+    if on(0.3):
+        L.append("  --")
+    L.append("  0 [+1]  UInt  x")
+    L.append("  1 [+1]  bits:")
+    L.append("    0 [+1]  Flag  fl")
+    L.append("    1 [+3]  UInt  lo")
+    if on():
+        L.append("    4 [+1]  Flag  fl2")
+    L.append("  2 [+1]  Ee  e")
+    lets = ["k_f = false", "k_t = true", "k_c = 3 < 2", "k_c2 = x < 0", "k_c3 = 0 == 1", "k_z = 0", "k_z2 = x * 0", "k_z3 = 0 - 0", "k_nf = false && true",
+            "k_of = false || false", "k_ef = false == false", "k_nt = true != true", "k_ch = false ? 1 : 0", "k_ch2 = (3 < 2) ? x : 0",
+            "k_en = Ee.ZERO", "k_ez = Ee.ZERO == Ee.ONE", "k_ezz = e == Ee.ZERO", "k_flz = fl == false", "k_both = fl && false",
+            "k_mx = $max(0, 0)", "k_ub = $lower_bound(x)", "k_pr = $present(x) == false", "k_neg = 0 - 1", "k_lz = lo * 0 == 0"]
+    names = []
+    for l in lets:
+        if on(0.55):
+            L.append("  let " + l)
+            names.append(l.split(" = ")[0])
+    if "k_f" in names and on():
+        L.append("  let k_ff = k_f || k_f")
+    off = 3
+    for cond in ["false", "3 < 2", "fl == false", "x == 0", "e == Ee.ZERO", "true"]:
+        if on(0.45):
+            L.append("  if %s:" % cond)
+            L.append("    %d [+1]  UInt  cf%d" % (off, off))
+            off += 1
+    if on():
+        L.append("  %d [+1]  UInt  y" % off)
+        L.append("    [requires: %s]" % r.choice(["this >= 0", "this != 0 || false", "false || this == 0", "true"]))
+        if on(0.5):
+            L.append('    [text_output: "%s"]' % r.choice(["Skip", "Emit"]))
+        off += 1
+    if on(0.5):
+        L.append("  %d [+0]  UInt:8[]  empty" % off)
+    if on(0.5):
+        L.append("  %d [+1]  UInt:8[0]  none" % off)
+    if on():
+        L.append("  %d [+1]  Bar%s(0, Ee.ZERO)  b" % (off, tag))
+        off += 1
+    if on(0.4):
+        L.append("  %d [+1]  Int  sg" % off)
+        off += 1
+    return "\n".join(L) + "\n"
+
+
+def backend_reject_jobs():
+    """Module sets the C++ back end rejects, with the offending attribute in the main file or in an imported file."""
+    bad_module_attrs = ['[(cpp) namespace: ""]', '[(cpp) namespace: "::"]', '[(cpp) namespace: "1x"]', '[(cpp) namespace: "a::class"]',
+                        '[(cpp) namespace: "a b"]', '[(cpp) bogus: 1]', '[(cpp) namespace: 3]',
+                        '[(cpp) $default enum_case: ""]', '[(cpp) $default enum_case: "bogus"]',
+                        '[(cpp) $default enum_case: "kCamelCase, kCamelCase"]', '[(cpp) $default enum_case: "kCamelCase,"]']
+    bad_enum_attrs = ['[(cpp) $default enum_case: "snake_case"]', '[(cpp) bogus: "x"]', '[(cpp) $default enum_case: "SHOUTY_CASE, ,"]']
+    bad_struct_attrs = ['[(cpp) bogus: 1]', '[(cpp) namespace: "x"]']
+
+    def module(type_prefix, mod_attr=None, enum_attr=None, struct_attr=None, imp=None):
+        L = []
+        if imp:
+            L.append('import "%s" as imp' % imp)
+        L.append('[$default byte_order: "LittleEndian"]')
+        if mod_attr:
+            L.append(mod_attr)
+        L += ["", "enum %sEe:" % type_prefix, "  -- a documented enum"]
+        if enum_attr:
+            L.append("  " + enum_attr)
+        L += ["  ZERO = 0", "  ONE_TWO = 12", "", "struct %sSs:" % type_prefix]
+        if struct_attr:
+            L.append("  " + struct_attr)
+        L.append("  0 [+2]  UInt  v")
+        if imp:
+            L.append("  2 [+2]  imp.ImpSs  inner")
+        return "\n".join(L) + "\n"
+
+    jobs = []
+    variants = [("mod", a) for a in bad_module_attrs] + [("enum", a) for a in bad_enum_attrs] + [("struct", a) for a in bad_struct_attrs]
+    for i, (where, attr) in enumerate(variants):
+        kw = {"mod_attr": attr} if where == "mod" else {"enum_attr": attr} if where == "enum" else {"struct_attr": attr}
+        good_imp, bad_imp = module("Imp"), module("Imp", **kw)
+        jobs.append({"id": "be-main:%d" % i, "files": {"m.emb": module("Top", imp="imp.emb", **kw), "imp.emb": good_imp}, "main": "m.emb"})
+        jobs.append({"id": "be-import:%d" % i, "files": {"m.emb": module("Top", imp="imp.emb"), "imp.emb": bad_imp}, "main": "m.emb"})
+        if i % 4 == 0:
+            jobs.append({"id": "be-both:%d" % i, "files": {"m.emb": module("Top", imp="imp.emb", **kw), "imp.emb": bad_imp}, "main": "m.emb"})
+    return jobs
+
+
+def driver_diff(rec):
+    """Which observable differs between embossc and front end | back end (None if equal)."""
+    a, b = rec["embossc"], rec["split"]
+    if a["exc"] or b["exc"]:
+        ka = pw.crash_key(a["exc"]) if a["exc"] else None
+        kb = pw.crash_key(b["exc"]) if b["exc"] else None
+        return None if ka == kb else "uncaught exception (embossc: %s, two-process route: %s)" % (ka, kb)
+    rc_split = b["rc1"] if b["rc1"] != 0 else b["rc2"]
+    if a["rc"] != rc_split:
+        return "exit status"
+    if a["stderr"] != b["stderr"]:
+        return "diagnostics"
+    if a["header_sha"] != b["header_sha"]:
+        return "header"
+    return None
 
 
 OUT_KINDS = ("status", "stage", "ir_sha", "header_sha", "formatted", "formatted_nosrc")
@@ -334,6 +471,16 @@ def run(ctx):
         tasks[("probe", 0)] = ex.submit(worker_run, ctx, "probe", probe_ids, seeds[0], ["modules", "state"], 1)
         for k, sel in enumerate(seq_orders):
             tasks[("seq", k)] = ex.submit(worker_run, ctx, "seq%d" % k, sel, seeds[1 + k], ["modules", "state"], 1)
+        # command line drivers: embossc vs emboss_front_end | emboss_codegen_cpp (IR through a file), in worker processes
+        drv_jobs = [{"id": "drv-corpus:" + n, "files": {}, "shared": True, "main": n} for n in sorted(testdata_files())]
+        for i in range(60 if thorough else 24):
+            drv_jobs.append({"id": "drv-falsy:%d" % i, "files": {"m.emb": falsy_module(ctx.rng, "")}, "main": "m.emb"})
+        drv_jobs += [dict(j, id="drv-" + j["id"]) for j in jobs if j["id"].startswith(("gen_expr:", "anon:", "rej:"))]
+        drv_jobs += backend_reject_jobs()
+        n_drv = 8
+        shutil.rmtree(os.path.join(ctx.bdir, "drivers"), ignore_errors=True)
+        for w in range(n_drv):
+            tasks[("drivers", w)] = ex.submit(worker_run, ctx, "drv%d" % w, drv_jobs[w::n_drv], seeds[0], [], 1, "drivers")
         sn_jobs = same_name_jobs()
         tasks[("same", "seq")] = ex.submit(worker_run, ctx, "same_seq", sn_jobs + list(reversed(sn_jobs)), seeds[0], ["ir"], 1)
         for i, j in enumerate(sn_jobs):
@@ -587,6 +734,43 @@ def run(ctx):
     if split_bad:
         ctx.violation("process-split-differs", "emboss_front_end | emboss_codegen_cpp and embossc produce different headers for %s" % split_bad[0],
                       dict(kind="cli", main=split_bad[0], import_dir="/repo"), found_input=True)
+
+    # ---- (7) the drivers on generated module sets: output AND diagnostics of both routes ---------------
+    drv_by_id = {j["id"]: j for j in drv_jobs}
+    drv_bad = {}
+    n_drv_cmp = 0
+    for w in range(n_drv):
+        for rec in res[("drivers", w)]["drivers"]:
+            n_drv_cmp += 1
+            fam = rec["id"].split(":")[0]
+            a = rec["embossc"]
+            ctx.count("drivers:%s:%s" % (fam, "accepted" if a["rc"] == 0 else "rejected" if a["exc"] is None else "crash"))
+            ctx.case(("drivers", rec["id"], drv_by_id[rec["id"]]["files"].get("m.emb", "")), nontrivial=True)
+            d = driver_diff(rec)
+            if d:
+                drv_bad.setdefault(d.split(" (")[0], []).append((rec, d))
+    be_recs = [rec for w in range(n_drv) for rec in res[("drivers", w)]["drivers"] if rec["id"].startswith("be-")]
+    be_reached = sum(1 for rec in be_recs if rec["embossc"]["rc"] == 1 and "Syntax error" not in rec["embossc"]["stderr"]
+                     and "Imports must" not in rec["embossc"]["stderr"])
+    ctx.obligation("drivers: %d of %d back-end rejection sets are well formed and rejected after parsing" % (be_reached, len(be_recs)),
+                   be_reached >= 0.8 * len(be_recs))
+    if be_reached < 0.8 * len(be_recs):
+        ctx.violation("harness:backend-reject-generator", "the back-end rejection module sets no longer reach the back end",
+                      dict(kind="harness", reached=be_reached, total=len(be_recs)), found_input=False)
+    n_v = len(ctx.violations)
+    for kind, lst in sorted(drv_bad.items()):
+        lst.sort(key=lambda t: sum(len(v) for v in drv_by_id[t[0]["id"]]["files"].values()) or 10 ** 9)
+        rec, d = lst[0]
+        job = drv_by_id[rec["id"]]
+        ctx.violation("process-split-differs:" + kind.replace(" ", "-"),
+                      "embossc and emboss_front_end | emboss_codegen_cpp differ in %s on %s (%d module sets)" % (d, rec["id"], len(lst)),
+                      dict(kind="cli-set", main=job["main"], files=job["files"] or {"(testdata)": job["main"]},
+                           embossc={k: (v if k != "stderr" else v[:1500]) for k, v in rec["embossc"].items()},
+                           two_process={k: (v if k != "stderr" else v[:1500]) for k, v in rec["split"].items()}),
+                      found_input=True)
+    ctx.obligation("drivers: embossc = front end | back end on %d module sets (testdata, falsy-value modules, gen_expr, anonymous bits, "
+                   "rejected modules, back-end rejections in main and imported files): exit status, stderr text, header" % n_drv_cmp,
+                   len(ctx.violations) == n_v)
 
     # ---- fail closed on the scan -------------------------------------------------------
     for k in new_sites:
